@@ -118,7 +118,22 @@ class RoleInterp(OrderInterp):
             return "<" if a < b else ("=" if a == b else ">")  # type: ignore[operator]
         raise AnalysisError(f"ordering of {a!r} and {b!r} not interpretable")
 
+    # ---- Python raises where the analysed code would: reported as a raising abstract path
+    def attr_of(self, base: Any, attr: str, node: ast.AST) -> Any:
+        if base is None:
+            raise _Raise(f"AttributeError ('NoneType' object has no attribute '{attr}')", node)
+        return super().attr_of(base, attr, node)
+
+    def builtin(self, name: str, pos: list[Any], kw: dict[str, Any], node: ast.AST) -> Any:
+        if name in ("max", "min") and len(pos) >= 2 and any(x is None for x in pos) \
+                and all(x is None or isinstance(x, Atom) for x in pos):
+            raise _Raise(f"TypeError ({name}() of None and a quantity)", node)
+        return super().builtin(name, pos, kw, node)
+
     def compare_values(self, op: ast.cmpop, a: Any, b: Any, node: ast.AST) -> Any:
+        if ((a is None and isinstance(b, Atom)) or (b is None and isinstance(a, Atom))) \
+                and isinstance(op, (ast.Lt, ast.LtE, ast.Gt, ast.GtE)):
+            raise _Raise("TypeError (ordering comparison of None and a quantity)", node)
         if isinstance(a, tuple) and isinstance(b, tuple):
             rel = "="
             for x, y in zip(a, b):
